@@ -215,7 +215,10 @@ claim("C12", "other",
       "structural contract obligations on writer/reader ASTs + bounded native round trips", "DESIGN.md 5/C12")
 
 claim("C07", "other",
-      "Proof: _check_npts raises ValueError iff header and found counts differ. Structural: read() decides the broadcasting of "
+      "Proof: _check_npts raises ValueError iff header and found counts differ; _arrange_traces (the component assignment of the miniSEED / SAC / "
+      "GCF readers) for three traces and all 64 combinations of channel-code endings E / N / Z / other - (ns, ew, vt) are the traces whose codes "
+      "end in N, E, Z whatever their order, every other combination is refused with ValueError (the function reads only the last letter, so the "
+      "case split is exhaustive; TimeSeries.from_trace opaque). Structural: read() decides the broadcasting of "
       "degrees_from_north and of obspy_read_kwargs each from its own type and zips names, options and orientations in order; the reader "
       "registry and its order. Bounded (labelled; regular expressions and obspy are external): SAF, MiniShark and PEER files written from a "
       "grammar - all 6 channel / file orders, NORTH_ROT present / absent, 12 PEER component-code layouts incl. counter-clockwise and "
@@ -225,7 +228,7 @@ claim("C07", "other",
       "scalar / 0 orientations and per-recording options: components hold exactly the stored samples (single precision for the integer text "
       "formats), the file's time step and the right orientation.",
       "Trusted: re, obspy (also used to write the binary test files), float32 rounding; GCF only from the one example file (obspy cannot write GCF).",
-      "contract proof of the count check + structural obligations + bounded grammar-based native reader checks", "DESIGN.md 5/C07")
+      "contract proofs of the count check and of the trace-to-component assignment (exhaustive case split) + structural obligations + bounded grammar-based native reader checks", "DESIGN.md 5/C07")
 
 claim("C14", "other",
       "Lemmas proved: the normalised weights (hence every Monte-Carlo statistic) are unchanged when all weights are multiplied by a constant; the "
